@@ -1,13 +1,19 @@
 """C28 -- Feldman hash addressing distinguishes every pair of distinct hashes (DESIGN.md section 7, C28).
 
-1. regenerate coq/Gen/Gen_feldman.v from $VERIF_REPO with tools/cxx2v (unit list tools/cxx2v/units_C28.json: the
-   hash splitters' is_correct / eos / cut / bit_offset),
+1. regenerate coq/Gen/Gen_feldman.v, Gen_feldman_make.v, Gen_feldman_ctor.v from $VERIF_REPO with tools/cxx2v (unit list
+   tools/cxx2v/units_C28.json: the hash splitters' is_correct / eos / cut / bit_offset; metrics::make; the splitter
+   constructors splitter( hash ) / splitter( hash, offset )),
 2. build Properties/Properties_C28.v: metrics::make normalisation, every generated splitter meets the splitter
    specification, and -- for every such splitter, accepted configuration and hash -- layout_consumes_all_bits,
-   path_deterministic, paths_diverge, slot_in_range, insert_new_hash_never_fails, expand_slot_consistent,
+   path_deterministic, paths_diverge, slot_in_range, insert_new_hash_never_fails, expand_slot_consistent; and its
+   companion Properties/Properties_C28_Gen.v: the GENERATED metrics::make and constructors are the hand-written ones
+   of LV.Model.FeldmanPath for every input, and the same theorems stated on the generated pieces,
 3. differential run (harness/C28/main.cpp, real code, hook off, one thread  vs  the OCaml extraction of
    LV.Model.FeldmanPath  vs  an independent Python reference of the property):
-     make   metrics::make on EVERY (head_bits, array_bits, hash_size) of the quantifier and beyond,
+     make   metrics::make on EVERY (head_bits, array_bits, hash_size) of the quantifier and beyond (hand-written model),
+     feldman_make.metrics_make   the same triples against the extracted GENERATED function,
+     feldman_ctor.<fam>_init[_at]   the compiled splitter constructors (data members read with -fno-access-control) against
+            the extracted GENERATED constructors: every family, every bit offset inside the hash, truncating offsets,
      path   the cut sequence of the splitter the set selects, for every normalised configuration of every family and
             hashes sharing prefixes of every length (one hash and the same hash with one bit flipped, every bit),
      set    the REAL FeldmanHashSet<cds::gc::HP>: insert such hashes, walk the tree, compare where every data node
@@ -27,6 +33,15 @@ FAMILIES = {  # name -> (kind, size in bytes, signed)
     "sb1": ("sb", 1, False), "sb2": ("sb", 2, False), "sb4": ("sb", 4, False), "sb8": ("sb", 8, False),
     "bs1": ("bs", 1, False), "bs2": ("bs", 2, False), "bs4": ("bs", 4, False), "bs8": ("bs", 8, False),
 }
+GEN_UNITS = ["feldman", "feldman_make", "feldman_ctor"]
+GEN_DISPATCH_UNITS = ["feldman_make", "feldman_ctor"]      # units whose functions the model driver dispatches by name
+CTOR_FAMILIES = {}      # family of the generated constructors -> (kind, size in bytes, signed)
+for _f, _v in FAMILIES.items():
+    if _v[0] == "ns":
+        CTOR_FAMILIES[_f] = _v
+for _n in range(1, 9):
+    CTOR_FAMILIES["sb%d" % _n] = ("sb", _n, False)
+    CTOR_FAMILIES["bs%d" % _n] = ("bs", _n, False)
 WIDE_SIG = "split_bitstring-cut-above-32"     # candidate finding: is_correct accepts widths > 32, cut is undefined
 
 
@@ -68,7 +83,7 @@ def ref_path(W, h1, a1, u):
 
 
 def tok_hash(fam, u):
-    kind, size, signed = FAMILIES[fam]
+    kind, size, signed = FAMILIES.get(fam) or CTOR_FAMILIES[fam]
     W = 8 * size
     u &= (1 << W) - 1
     if kind == "ns":
@@ -79,7 +94,7 @@ def tok_hash(fam, u):
 
 
 def untok_hash(fam, t):
-    kind, size, signed = FAMILIES[fam]
+    kind, size, signed = FAMILIES.get(fam) or CTOR_FAMILIES[fam]
     W = 8 * size
     if t.startswith("m:"):
         b = bytes.fromhex(t[2:])
@@ -97,6 +112,30 @@ def ref_path_line(fam, head, array, u):
     p = ref_path(W, h1, a1, u)
     return "m=%x,%x p=%s x=%s" % (h1, a1, ",".join("%x:%d" % (s, 1 if e else 0) for s, e in p),
                                   ",".join("%x" % s for s, _ in p[1:]))
+
+
+def ref_generated(case):
+    """independent reference for the lines named after generated functions -> expected result, or None when the
+    arguments are outside what the C++ defines (nothing to compare)"""
+    t = case.split()
+    unit, _, fn = t[0].partition(".")
+    if unit == "feldman_make":
+        head, array, size = (int(x, 16) for x in t[1:4])
+        h1, a1 = ref_make(head, array, size)
+        if h1 >= 64 or a1 >= 64:
+            return None
+        return "%x %x %x %x" % (1 << h1, h1, 1 << a1, a1)
+    at = fn.endswith("_init_at")
+    fam = fn[:-len("_init_at")] if at else fn[:-len("_init")]
+    kind, size, signed = CTOR_FAMILIES[fam]
+    off = int(t[2], 16) if at else 0
+    if kind == "ns":
+        return "%s %x" % (t[1], off & 0xffffffff)            # number_( n ), shift_( static_cast<unsigned>( offset ))
+    if off // 8 > size:
+        return None                                          # pointer beyond one-past-the-end of the hash object
+    if kind == "sb":
+        return "%x %x 0 %x" % (off // 8, off % 8, size)      # cur_ offset_ first_ last_ as byte offsets from &h
+    return "%x 0 %x" % (off // 8, size)                      # cur_ first_ last_
 
 
 def cpl(a, b):
@@ -171,6 +210,18 @@ def gen_cases(ctx):
             for other in (0, 1, 2, 3, 4, 5, 8, 16):
                 lines.append("make %x %x %x" % (big, other, size))
                 lines.append("make %x %x %x" % (other, big, size))
+    # (a') the same triples against the GENERATED metrics::make, and the GENERATED splitter constructors
+    lines += ["feldman_make.metrics_make " + l.split(" ", 1)[1] for l in lines if l.startswith("make ")]
+    for fam, (kind, size, signed) in CTOR_FAMILIES.items():
+        W = 8 * size
+        hashes = [0, 1, (1 << W) - 1, 1 << (W - 1), (1 << (W - 1)) - 1] + [rng.next() & ((1 << W) - 1) for _ in range(6 if thorough else 3)]
+        for u in hashes:
+            lines.append("feldman_ctor.%s_init %s" % (fam, tok_hash(fam, u)))
+        offs = list(range(0, W + 1))
+        if kind == "ns":        # static_cast<unsigned>( initial_offset ) truncates; offsets past the width are stored as they are
+            offs += [W + 1, 0x7fffffff, 0x80000000, 0xffffffff, 0x100000000, 0x100000005, (1 << 63) + 9, (1 << 64) - 1]
+        for off in offs:
+            lines.append("feldman_ctor.%s_init_at %s %x" % (fam, tok_hash(fam, hashes[(off * 7 + 3) % len(hashes)]), off))
     # (b) path, (c) set
     set_head_limit = 20 if thorough else 16
     for fam, (kind, size, signed) in FAMILIES.items():
@@ -228,35 +279,62 @@ def run_parallel(cmds, timeout):
     return res
 
 
+EXTRACT_GEN = """(* written by checks/C28.py: LV.Model.FeldmanPath (as coq/Extract/Extract_C28.v) together with the GENERATED
+   metrics::make and splitter constructors; one OCaml module per Coq library *)
+Require Extraction.
+Require Import ExtrOcamlBasic.
+Require LV.Model.FeldmanPath %s.
+Set Extraction Output Directory ".".
+Separate Extraction FeldmanPath %s.
+"""
+
+
 def build_model(ctx):
+    """-> (driver executable or None, error text or None, units whose generated functions the driver can evaluate)"""
+    gen_units = [u for u in GEN_DISPATCH_UNITS if os.path.exists(os.path.join(vcheck.COQ, "Gen", "Gen_%s.meta.json" % u))]
     srcs = [os.path.join(vcheck.COQ, "Gen", "Gen_feldman.v"), os.path.join(vcheck.COQ, "Model", "FeldmanPath.v"),
             os.path.join(vcheck.COQ, "Base", "CInt.v"), os.path.join(vcheck.COQ, "Extract", "Extract_C28.v"),
-            os.path.join(vcheck.VERIF, "ocaml", "cxx2v_rt.ml"), os.path.join(vcheck.VERIF, "ocaml", "c28_driver.ml")]
-    key = vcheck.file_hash(srcs)
+            os.path.join(vcheck.VERIF, "ocaml", "cxx2v_rt.ml"), os.path.join(vcheck.VERIF, "ocaml", "c28_driver.ml"),
+            os.path.join(vcheck.VERIF, "tools", "cxx2v", "gen_ocaml_dispatch.py"), os.path.abspath(__file__)]
+    for u in gen_units:
+        srcs += [os.path.join(vcheck.COQ, "Gen", "Gen_%s.v" % u), os.path.join(vcheck.COQ, "Gen", "Gen_%s.meta.json" % u)]
+    key = vcheck.file_hash(srcs) + repr(gen_units)
     d = os.path.join(ctx.work, "model")
     exe = os.path.join(d, "c28_driver")
     if os.path.exists(exe) and os.path.exists(exe + ".key") and open(exe + ".key").read() == key:
-        return exe, None
+        return exe, None, gen_units
     shutil.rmtree(d, ignore_errors=True)
     os.makedirs(d)
-    # the extraction needs Gen_feldman.vo and FeldmanPath.vo
-    rc, out = vcheck.sh(["make", "-j4", "Model/FeldmanPath.vo"], cwd=vcheck.COQ, timeout=600)
+    # the extraction needs Gen_feldman.vo, FeldmanPath.vo and the .vo of the generated make / constructors
+    vcheck.coq_makefile()
+    rc, out = vcheck.sh(["make", "-j4", "Model/FeldmanPath.vo"] + ["Gen/Gen_%s.vo" % u for u in gen_units], cwd=vcheck.COQ, timeout=600)
     if rc != 0:
-        return None, "model does not compile:\n" + out[-2000:]
-    rc, out = vcheck.extract("Extract_C28.v", d)
+        return None, "model does not compile:\n" + out[-2000:], gen_units
+    if gen_units:
+        with open(os.path.join(d, "Extract_C28_gen.v"), "w") as f:
+            f.write(EXTRACT_GEN % (" ".join("LV.Gen.Gen_%s" % u for u in gen_units), " ".join("Gen_%s" % u for u in gen_units)))
+        rc, out = vcheck.sh(["coqc", "-Q", vcheck.COQ, "LV", "-w", "none", "-o", os.path.join(d, "Extract_C28_gen.vo"),
+                             os.path.join(d, "Extract_C28_gen.v")], cwd=d, timeout=600)
+    else:
+        rc, out = vcheck.extract("Extract_C28.v", d)
     if rc != 0:
-        return None, "extraction failed:\n" + out[-2000:]
+        return None, "extraction failed:\n" + out[-2000:], gen_units
+    # dispatch of the generated functions by name (an empty table when their units were not translated)
+    rc, out = vcheck.sh([sys.executable, os.path.join(vcheck.VERIF, "tools", "cxx2v", "gen_ocaml_dispatch.py"),
+                         os.path.join(d, "c28_gen_dispatch.ml")] + gen_units)
+    if rc != 0:
+        return None, "dispatch generation failed:\n" + out[-2000:], gen_units
     for f in ("cxx2v_rt.ml", "c28_driver.ml"):
         shutil.copy(os.path.join(vcheck.VERIF, "ocaml", f), d)
     rc, order = vcheck.sh("ocamlfind ocamldep -sort *.ml *.mli", cwd=d)
     if rc != 0:
-        return None, "ocamldep failed:\n" + order[-2000:]
+        return None, "ocamldep failed:\n" + order[-2000:], gen_units
     rc, out = vcheck.ocaml_build(d, order.split(), "c28_driver")
     if rc != 0:
-        return None, "ocaml build failed:\n" + out[-3000:]
+        return None, "ocaml build failed:\n" + out[-3000:], gen_units
     with open(exe + ".key", "w") as f:
         f.write(key)
-    return exe, None
+    return exe, None, gen_units
 
 
 def split_line(l):
@@ -309,6 +387,8 @@ def parse_case(case):
     if t[0] == "make":
         return "make", None, [int(x, 16) for x in t[1:]]
     kind, _, fam = t[0].partition(".")
+    if kind in GEN_DISPATCH_UNITS:
+        return kind, fam, t[1:]
     return kind, fam, (int(t[1], 16), int(t[2], 16), t[3:])
 
 
@@ -323,6 +403,11 @@ def check_against_reference(case, cxx):
             return "outside", None, "size_t(1) << %d is undefined" % max(h1, a1)
         exp = "%x %x %x %x" % (h1, 1 << h1, a1, 1 << a1)
         return ("ok" if cxx == exp else "bad"), exp, "metrics::make"
+    if kind in GEN_DISPATCH_UNITS:
+        exp = ref_generated(case)
+        if exp is None:
+            return "outside", None, "undefined in C++ (shift by 64 / pointer beyond the object)"
+        return ("ok" if cxx == exp else "bad"), exp, "metrics::make" if kind == "feldman_make" else "splitter constructor"
     head, array, hts = a
     size = FAMILIES[fam][1]
     h1, a1 = ref_make(head, array, size)
@@ -358,6 +443,13 @@ def divergence_class(case):
         head, array, size = a
         h1, a1 = ref_make(head, array, size)
         return ("make", size, head < 4, head > 8 * size, array < 2, (8 * size - min(max(head, 4), 8 * size)) % a1 != 0, min(h1, 65), min(a1, 65))
+    if kind == "feldman_make":
+        head, array, size = (int(x, 16) for x in a)
+        h1, a1 = ref_make(head, array, size)
+        return ("gmake", size, head < 4, head > 8 * size, array < 2, (8 * size - min(max(head, 4), 8 * size)) % a1 != 0, min(h1, 65), min(a1, 65))
+    if kind == "feldman_ctor":
+        off = int(a[1], 16) if len(a) > 1 else -1
+        return ("ctor", fam, min(off, 70) if off < 1 << 31 else off.bit_length() + 100)
     head, array, hts = a
     size = FAMILIES[fam][1]
     h1, a1 = ref_make(head, array, size)
@@ -385,7 +477,7 @@ def run(ctx):
     tr = {}
 
     def translate():
-        tr["rc"], tr["out"] = vcheck.sh([sys.executable, os.path.join(vcheck.VERIF, "tools", "cxx2v", "gen_all.py"), "feldman"],
+        tr["rc"], tr["out"] = vcheck.sh([sys.executable, os.path.join(vcheck.VERIF, "tools", "cxx2v", "gen_all.py")] + GEN_UNITS,
                                         timeout=600, env={"CXX2V_UNITS": UNITS_JSON})
     th = threading.Thread(target=translate)
     th.start()
@@ -393,7 +485,7 @@ def run(ctx):
     sw = os.path.join(ctx.work, "sweep")
     try:
         exe = vcheck.cxx_build(os.path.join(vcheck.VERIF, "harness", "C28", "main.cpp"), os.path.join(ctx.work, "h", "main"),
-                               hook=False, opt="-O1")
+                               hook=False, opt="-O1", extra=("-fno-access-control",))     # reads the splitters' private members
         # ---- cases; the real code runs on corpus + cases while the translator works ----------
         for cf in sorted(glob.glob(os.path.join(vcheck.VERIF, "corpus", "C28", "*.txt"))):
             corpus += [l.strip() for l in open(cf) if l.strip() and not l.startswith("#")]
@@ -411,12 +503,15 @@ def run(ctx):
     finally:
         th.join()
     ctx.log("cxx2v:", tr["out"].strip().replace("\n", " | ")[-400:])
-    cov["translator"] = {"cmd": "CXX2V_UNITS=tools/cxx2v/units_C28.json python3 tools/cxx2v/gen_all.py feldman", "rc": tr["rc"],
-                         "repo": vcheck.REPO, "output": tr["out"].strip().split("\n")[-6:]}
-    meta = os.path.join(vcheck.COQ, "Gen", "Gen_feldman.meta.json")
-    if os.path.exists(meta):
-        cov["generated_functions"] = {f["coq"]: {"cxx": f["cxx"], "source": f["source"], "sha256": f["sha256"]}
-                                      for f in json.load(open(meta))["functions"]}
+    cov["translator"] = {"cmd": "CXX2V_UNITS=tools/cxx2v/units_C28.json python3 tools/cxx2v/gen_all.py " + " ".join(GEN_UNITS),
+                         "rc": tr["rc"], "repo": vcheck.REPO, "output": tr["out"].strip().split("\n")[-6:]}
+    cov["generated_functions"] = {}
+    for gu in GEN_UNITS:
+        meta = os.path.join(vcheck.COQ, "Gen", "Gen_%s.meta.json" % gu)
+        if os.path.exists(meta):
+            for f in json.load(open(meta))["functions"]:
+                cov["generated_functions"][f["coq"] if gu == "feldman" else "%s.%s" % (gu, f["coq"])] = {
+                    "cxx": f["cxx"], "sig": f["sig"], "source": f["source"], "sha256": f["sha256"]}
     if tr["rc"] != 0:
         failures.append(("translator", {"message": tr["out"][-1500:]}))
 
@@ -424,20 +519,24 @@ def run(ctx):
     model_holder = {}
 
     def model():
-        model_holder["m"] = build_model(ctx) if tr["rc"] == 0 else (None, "translation failed")
-    res = vcheck.coq_build(["Properties/Properties_C28.v"], timeout=1500)
+        # the hand-written model only needs unit feldman; the generated make / constructors are added when translated
+        feldman_ok = os.path.exists(os.path.join(vcheck.COQ, "Gen", "Gen_feldman.v"))
+        model_holder["m"] = build_model(ctx) if feldman_ok else (None, "translation failed", [])
+    res = vcheck.coq_build(["Properties/Properties_C28.v", "Properties/Properties_C28_Gen.v"], timeout=1500)
     ctx.coq_evidence(res)
     ctx.log("coq: %d/%d obligations discharged in %.0fs" % (len(res.discharged), len(res.obligations), res.wall_s))
     if not res.ok:
         for (f, ln, thm, msg) in res.failed[:6]:
             failures.append(("proof", {"file": f, "line": ln, "lemma": thm, "coq_error": msg}))
     model()
-    mexe, merr = model_holder["m"]
+    mexe, merr, model_gen_units = model_holder["m"]
+    cov["model_evaluates_generated_units"] = model_gen_units
     if ctx.thorough() and res.ok:
-        rc2, o2 = vcheck.coqchk("LV.Properties.Properties_C28", timeout=1500)
-        cov["coqchk"] = {"rc": rc2, "tail": o2[-300:]}
-        if rc2 != 0:
-            failures.append(("proof", {"file": "coqchk", "coq_error": o2[-600:]}))
+        for modname in ("LV.Properties.Properties_C28", "LV.Properties.Properties_C28_Gen"):
+            rc2, o2 = vcheck.coqchk(modname, timeout=1500)
+            cov.setdefault("coqchk", {})[modname] = {"rc": rc2, "tail": o2[-300:]}
+            if rc2 != 0:
+                failures.append(("proof", {"file": "coqchk " + modname, "coq_error": o2[-600:]}))
 
     # a crash / hang of the real code: the unfinished line is the failing input
     for (part, rc, unfinished, tail) in cxx_problems:
@@ -485,10 +584,13 @@ def run(ctx):
     for (case, exp, g, detail) in bad:
         kind, fam, _ = parse_case(case)
         key = kind
-        if key in seen:
+        if key in seen or (kind == "feldman_make" and "make" in seen):      # the same deviation of metrics::make, reported once
             continue
         seen.add(key)
         what = {"make": "metrics::make does not normalise (head_bits, array_bits) as the layout theorems require",
+                "feldman_make": "metrics::make does not normalise (head_bits, array_bits) as the layout theorems require",
+                "feldman_ctor": "a hash splitter constructor does not build the initial state the cut-sequence theorems start from "
+                                "(number_/shift_, or cur_/offset_/first_/last_ relative to the hash object)",
                 "path": "the hash splitter's cut sequence is not the bit slices of the hash: paths of distinct hashes need not diverge",
                 "set": "FeldmanHashSet placed an inserted hash off its path, or insert of a new hash failed"}[kind]
         extra = {}
@@ -500,7 +602,12 @@ def run(ctx):
                 extra["distinct_hash_with_the_same_path"] = twins[0]
         ctx.violation(what + " (%s%s: %s)" % (kind, "." + fam if fam else "", detail),
                       dict({"input": case, "input_lines": [case] + list(extra.values()), "expected": exp, "observed": g,
-                            "expected_is": "independent reference: slot k = bits of the hash at the k-th width of the normalised layout",
+                            "expected_is": {"feldman_ctor": "independent reference: the members the constructor's initialiser list sets "
+                                                            "(pointers as byte offsets from the hash object)",
+                                            "feldman_make": "independent reference: the members of metrics in declaration order for "
+                                                            "head' = clamp(head,4,8*size) + remainder, array' = max(array,2)",
+                                            "make": "independent reference: head' = clamp(head,4,8*size) + remainder, array' = max(array,2)"}
+                                           .get(kind, "independent reference: slot k = bits of the hash at the k-th width of the normalised layout"),
                             "observed_is": "compiled code of $VERIF_REPO", "how_to_replay": "bin/check C28 --replay <this file>"}, **extra),
                       signature="ref:%s:%s" % (kind, case))
     cov["reference_mismatches"] = len(bad)
@@ -518,6 +625,7 @@ def run(ctx):
 
     # ---- 4. real code vs extracted model ------------------------------------------------------
     evaluations = 0
+    gen_evals = collections.Counter()
     ub_with_value = collections.Counter()
     disagreements = []
     if mexe is None:
@@ -530,7 +638,11 @@ def run(ctx):
             g, m = cxx.get(case), mod.get(case)
             if g is None or m is None:
                 continue
+            gu = case.split(".", 1)[0]
+            if gu in GEN_DISPATCH_UNITS and gu not in model_gen_units:
+                continue                  # its unit was not translated (reported as a translator failure above)
             evaluations += 1
+            gen_evals[gu if gu in GEN_DISPATCH_UNITS else "hand-written model"] += 1
             if m == "UB":
                 ub_with_value[case.split()[0]] += 1
                 continue
@@ -543,17 +655,21 @@ def run(ctx):
         if k in seen or k in ref_kinds:
             continue
         seen.add(k)
-        ctx.violation("compiled C++ and the extracted Coq model disagree for %s (the hand-written part of the model, the translator "
-                      "or CInt no longer matches the code)" % case.split()[0],
-                      {"input": case, "input_lines": [case], "expected": m, "observed": g, "expected_is": "extracted LV.Model.FeldmanPath",
+        generated = k in GEN_DISPATCH_UNITS
+        ctx.violation("compiled C++ and the extracted Coq model disagree for %s (%s)" % (case.split()[0],
+                      "a GENERATED function: the translator or CInt no longer matches the code" if generated else
+                      "the hand-written part of the model, the translator or CInt no longer matches the code"),
+                      {"input": case, "input_lines": [case], "expected": m, "observed": g,
+                       "expected_is": "extracted LV.Gen.Gen_%s" % k if generated else "extracted LV.Model.FeldmanPath",
                        "observed_is": "compiled code of $VERIF_REPO"}, signature="diff:" + case)
     cov["model_disagreements"] = len(disagreements)
 
     # ---- 5. obligations broke but no failing input --------------------------------------------
     if failures and not ctx.violations:
         for kind, det in failures[:4]:
-            what = {"translator": "cxx2v can no longer translate the C28 unit (construct outside the supported subset)",
-                    "proof": "a C28 theorem about the generated splitters / the path model no longer checks",
+            what = {"translator": "cxx2v can no longer translate a C28 unit (feldman: splitter functions, feldman_make: metrics::make, "
+                                  "feldman_ctor: splitter constructors; construct outside the supported subset)",
+                    "proof": "a C28 theorem about the generated splitters / make / constructors / the path model no longer checks",
                     "model": "the extracted C28 model could not be built/run",
                     "harness": "the C28 harness failed"}[kind]
             ctx.violation(what, dict(det, kind=kind, searched="real code vs the independent reference on %d cases "
@@ -565,6 +681,7 @@ def run(ctx):
     cov.update({
         "evaluations": len(cxx),
         "model_vs_cxx_evaluations": evaluations,
+        "model_vs_cxx_evaluations_by_side": dict(gen_evals),
         "real_containers_built": sum(v for k, v in hist.items() if k.startswith("set.")),
         "distinct_nontrivial": len(classes),
         "rule": "distinct classes among the cases on which the real code agreed with the reference: make -> (hash size, which clamps "
@@ -580,12 +697,17 @@ def run(ctx):
     trusted = vcheck.STD_TRUSTED + [
         "tools/cxx2v (clang 14 JSON AST -> Gallina) and coq/Base/CInt.v's reading of the C++ standard for g++/amd64; cross-checked on "
         "every run by the differential sweep above",
-        "hand-written (cxx2v cannot translate them), tied to the code only by the differential sweep: metrics::make (compared on every "
-        "argument triple of the quantifier), the splitter constructors, the level loop of traverse_data::reset/traverse/insert/"
-        "expand_slot (path, expand_slots), and the landing rule of inserts (compared with real FeldmanHashSet<HP> instances)",
+        "metrics::make and the splitter constructors are GENERATED (Gen_feldman_make, Gen_feldman_ctor) and proved equal to the "
+        "hand-written metrics_make / sp_init / sp_init_at of LV.Model.FeldmanPath for every input (Properties_C28_Gen); the compiled "
+        "functions are compared with the extracted generated ones on every argument triple of the quantifier / every family and bit "
+        "offset (private members read with -fno-access-control)",
+        "hand-written (cxx2v does not translate pointer-walking code over atomics), tied to the code only by the differential sweep: "
+        "the level loop of traverse_data::reset/traverse/insert/expand_slot (path, expand_slots: descend / expand_from), and the "
+        "landing rule of inserts (compared with real FeldmanHashSet<HP> instances)",
         "Print Assumptions: " + ("all C28 theorems closed under the global context" if res.assumptions and all(v == "closed" for v in res.assumptions.values())
                                  else json.dumps(res.assumptions)),
-        "ocaml/cxx2v_rt.ml, ocaml/c28_driver.ml (text <-> Coq Z, dispatch); the Python reference in checks/C28.py",
+        "ocaml/cxx2v_rt.ml, ocaml/c28_driver.ml, tools/cxx2v/gen_ocaml_dispatch.py (text <-> Coq Z, dispatch); the Python reference "
+        "in checks/C28.py",
     ]
     assumptions = [
         "asserts are compiled out (NDEBUG) in the translated configuration and in the harness; the constructor's two is_correct "
@@ -594,5 +716,7 @@ def run(ctx):
         "split_bitstring/byte_splitter: widths above 32 bits (only possible for hashes wider than 4 bytes) are outside the theorems "
         "(…_above_32_refuted); real sets are built only for head' <= %d" % (20 if ctx.thorough() else 16),
         "LP64 little-endian target: the big-endian branches of cut are not translated",
+        "split_bitstring / byte_splitter constructors: the hash object is the byte memory of the generated code (its address is "
+        "index 0, exactly sizeof(hash) bytes); instantiated for N = 1..8 bytes",
     ]
     return ctx.finish(trusted, assumptions)
